@@ -34,14 +34,15 @@ def main():
     else:
         os.makedirs(os.path.join(WT, "examples"), exist_ok=True)
         path = os.path.join(WT, "examples", name + ".rs"); cmd = "cargo run --offline --example %s" % name
+    # the crate's own suite first, without the demonstration in the tree
+    rc2, out2 = sh("cargo test --workspace --no-fail-fast --offline 2>&1 | grep -E '^test result|FAILED|failed'", cwd=WT)
+    oks = len(re.findall(r"test result: ok", out2)); fails = [l for l in out2.split("\n") if ("FAILED" in l or "failed" in l) and "test result: ok" not in l]
+    passed = sum(int(x) for x in re.findall(r"(\d+) passed", out2))
+    res["suite_with_patch"] = {"ok_lines": oks, "passed": passed, "other_failures": fails[:5]}
     shutil.copy(os.path.join(d, "demo.rs"), path)
     rc1, out1 = sh(cmd, cwd=WT)
     res["demo_with_patch_exit"] = rc1
     res["demo_with_patch_tail"] = out1[-400:]
-    rc2, out2 = sh("cargo test --workspace --no-fail-fast --offline 2>&1 | grep -E '^test result|FAILED|failed'", cwd=WT)
-    oks = len(re.findall(r"test result: ok", out2)); fails = [l for l in out2.split("\n") if ("FAILED" in l or "failed" in l) and name not in l and "test result: ok" not in l]
-    passed = sum(int(x) for x in re.findall(r"(\d+) passed", out2))
-    res["suite_with_patch"] = {"ok_lines": oks, "passed": passed, "other_failures": fails[:5]}
     # revert the source change only (keep the demo)
     sh("git checkout -- .", cwd=WT)
     rc3, out3 = sh(cmd, cwd=WT)
